@@ -1,11 +1,11 @@
 package main
 
 import (
-	"time"
-	pongo2 "github.com/flosch/pongo2/v6"
 	"fmt"
+	pongo2 "github.com/flosch/pongo2/v6"
 	"math"
 	"strings"
+	"time"
 )
 
 func init() { suites["c07-expr"] = suiteC07 }
